@@ -409,6 +409,28 @@ def _r2_solve(c):
     return res
 
 
+def _r2_atoms_ok(s, c):
+    """the numerical atoms of the solve are consistent: every side labelled S is compressed and every side labelled R is
+    expanded, and the reported p* is a root of the pressure-deflection balance of the reported pattern.  Returns
+    (ok, description)"""
+    M = importlib.import_module(R2M)
+    prob = object.__new__(M.SetupRiemannProblem)
+    ps = float(s.pressure_solution)
+    ang = []
+    for k, st, sign in ((0, c['bottom'], -1.0), (4, c['top'], 1.0)):
+        p0 = st[0]
+        lab = s.morphology[k]
+        if (lab == 'S' and ps < p0 * (1 - 1e-9)) or (lab == 'R' and ps > p0 * (1 + 1e-9)):
+            return False, '%s side labelled %s but p* = %r, p0 = %r (pattern %s)' % ('bottom' if k == 0 else 'top', lab, ps, p0, s.morphology)
+        with np.errstate(all='ignore'):
+            d = float((prob.compression_states if lab == 'S' else prob.expansion_states)(ps, list(st))[0])
+        ang.append(st[3] / 180. * math.pi + sign * d)
+    if not (abs(ang[0] - ang[1]) <= 1e-7):
+        return False, 'p* = %r is not a root of the pressure-deflection balance of pattern %s: flow angle behind the bottom wave %r, behind the top wave %r' \
+            % (ps, s.morphology, ang[0], ang[1])
+    return True, ''
+
+
 def _r2_consistency_check(c):
     r = _r2_solve(c)
     if r is None:
@@ -507,6 +529,8 @@ def _r2_shock_check(c):
     if r is None:
         return None
     s = r[0]
+    if not _r2_atoms_ok(s, c)[0]:
+        return None        # inconsistent atoms are the business of r2_pattern
     cd, ps = float(s.deflection_angle_solution), float(s.pressure_solution)
     for side, st, star, k in (('bottom', c['bottom'], s.bottom_star_vals, 0), ('top', c['top'], s.top_star_vals, 4)):
         if s.morphology[k] != 'S':
@@ -539,6 +563,8 @@ def _r2_isentrope_check(c):
     if r is None:
         return None
     s, sol, th = r
+    if not _r2_atoms_ok(s, c)[0]:
+        return None        # inconsistent atoms are the business of r2_pattern
     for k, st, key in ((0, c['bottom'], 'BR'), (4, c['top'], 'TR')):
         if s.morphology[k] != 'R':
             continue
@@ -569,6 +595,8 @@ def _r2_turning_check(c):
     if r is None:
         return None
     s = r[0]
+    if not _r2_atoms_ok(s, c)[0]:
+        return None        # inconsistent atoms are the business of r2_pattern
     cd = float(s.deflection_angle_solution)
     for k, st, star in ((0, c['bottom'], s.bottom_star_vals), (4, c['top'], s.top_star_vals)):
         if s.morphology[k] != 'R':
@@ -600,17 +628,14 @@ r2_pm = O.make(lambda rng: dict(M=rng.choice([2.0, rng.uniform(1.05, 8.0)]), g=r
 
 
 def _r2_pattern_check(c):
-    """a side labelled S is compressed (p* >= p0), a side labelled R is expanded (p* <= p0)"""
+    """FINDING reproduction (inflow angles differ): a side labelled S is compressed (p* >= p0), a side labelled R is expanded
+    (p* <= p0), and p* balances the two pressure-deflection curves of that pattern"""
     r = _r2_solve(c)
     if r is None:
         return None
-    s = r[0]
-    ps = float(s.pressure_solution)
-    for k, st in ((0, c['bottom']), (4, c['top'])):
-        p0 = st[0]
-        if (s.morphology[k] == 'S' and ps < p0 * (1 - 1e-9)) or (s.morphology[k] == 'R' and ps > p0 * (1 + 1e-9)):
-            return dict(site='Riemann2D:pattern', detail='%s side labelled %s but p* = %r, p0 = %r (pattern %s)'
-                        % ('bottom' if k == 0 else 'top', s.morphology[k], ps, p0, s.morphology))
+    ok, why = _r2_atoms_ok(r[0], c)
+    if not ok:
+        return dict(site='Riemann2D:pattern', detail=why)
     return None
 
 
@@ -684,4 +709,300 @@ def r2_solver_tie(rng, deep):
         tot['distinct_nontrivial'] += st['distinct_nontrivial']
         tot['mismatches'] += st['mismatches']
         tot['samples'] += st['samples'][:1]
+    return tot
+
+
+# =====================================================================================
+# C12  radiative shocks
+# =====================================================================================
+RSW = 'exactpack.solvers.radshocks.nED_radshocks'
+RS_KINDS = {'ED': 'ED_Solver', 'nED': 'nED_Solver', 'ie': 'ie_Solver', 'Sn': 'Sn_Solver'}
+_RS_CACHE = {}
+
+
+def _rs_solver(kind, params):
+    """construct (and cache: ED ~1 s, nED/ie ~0.3 s, Sn ~20 s) a radiative-shock solver; None if it cannot be built"""
+    key = json.dumps([kind, params], sort_keys=True)
+    if key in _RS_CACHE:
+        return _RS_CACHE[key]
+    import contextlib
+    import io
+    _, C = O.load('%s:%s' % (RSW, RS_KINDS[kind]))
+    try:
+        with warnings.catch_warnings():
+            warnings.simplefilter('ignore')
+            with contextlib.redirect_stdout(io.StringIO()), np.errstate(all='ignore'):
+                s = C(**params)
+    except Exception:
+        s = None
+    if len(_RS_CACHE) > 12:
+        _RS_CACHE.clear()
+    _RS_CACHE[key] = s
+    return s
+
+
+RS_PARAM_SETS = [
+    dict(),                                   # the documented defaults
+    dict(gamma=1.4),                          # the parameters of the repaired defect: non-default gamma, Cv, Tref
+    dict(Cv=2.0e12, Tref=150.),
+    dict(gamma=1.5, Tref=150., M0=1.2),
+]
+
+
+def _rs_case(kinds):
+    def gen(rng):
+        kind = rng.choice(kinds)
+        p = dict(rng.choice(RS_PARAM_SETS))
+        if rng.random() < 0.3:
+            p = dict(p, gamma=rng.choice([5. / 3., 1.4, 1.5]), Cv=1.4472799784454e12 * rng.choice([1.0, 0.7, 1.6]),
+                     Tref=rng.choice([100., 80., 150.]), M0=rng.choice([1.2, 1.05, 1.3]))
+        if kind == 'ie':
+            p['M0'] = rng.choice([1.4, 1.2, 1.3])
+        if kind != 'ie' and rng.random() < 0.3:
+            p['rho0'] = rng.choice([1.0, 2.0, 0.5])
+        return dict(kind=kind, params=p, frac=sorted(rng.random() for _ in range(6)),
+                    t=rng.choice([0.0, 1e-9, rng.uniform(0, 5e-9)]), delta=rng.choice([1e-9, 3e-9, rng.uniform(-2e-9, 6e-9)]))
+    return gen
+
+
+def _tiered(kinds_quick, kinds_deep, check, name):
+    """oracle whose case generator depends on the tier (Sn takes ~20 s to construct: thorough only)"""
+    q = O.make(_rs_case(kinds_quick), check, name)
+    d = O.make(_rs_case(kinds_deep), check, name)
+
+    def run(rng, budget, deep, replay=None):
+        return (d if deep else q)(rng, budget, deep, replay)
+    run.__name__ = name
+    return run
+
+
+def _rs_c(s):
+    return math.sqrt(s.gamma * (s.gamma - 1.) * s.Cv * s.Tref)
+
+
+def _rs_shift_check(c):
+    """field(x + M0 c_s delta, t + delta) = field(x, t), c_s from the INSTANCE's gamma, Cv, Tref (public calls)"""
+    s = _rs_solver(c['kind'], c['params'])
+    if s is None:
+        return None
+    cs = _rs_c(s)
+    x = np.asarray(s.x, dtype=float)
+    lo, hi = x[1], x[-2]
+    pts = np.array([lo + f * (hi - lo) for f in c['frac']])
+    try:
+        a = s(pts, c['t'])
+        b = s(pts + s.M0 * cs * c['delta'], c['t'] + c['delta'])
+    except Exception:
+        return None
+    for nm in a.dtype.names[1:]:
+        scale = float(np.max(np.abs(a[nm]))) or 1.0
+        err = float(np.max(np.abs(a[nm] - b[nm]))) / scale
+        # the stored profile is piecewise linear with >= 8000 nodes: the shifted abscissa is exact up to rounding of
+        # x + shift (relative 1e-16 of |shift| ~ 0.1, times the steepest slope): calibrated 7e-15, margin to 1e-9
+        if not (err <= 1e-9):
+            return dict(site='RadShock:%s:travelling-wave' % c['kind'],
+                        detail='field %s changes by %.3e (relative) between (x, t) and (x + M0 c_s delta, t + delta), c_s = %r, solver.sound = %r'
+                        % (nm, err, cs, getattr(s, 'sound', None)))
+    return None
+
+
+rs_shift = _tiered(['ED', 'nED', 'ie'], ['ED', 'nED', 'ie', 'Sn'], _rs_shift_check, 'c12.radshock.shift')
+
+
+def _rs_fluxes(s, kind):
+    cs, r0 = _rs_c(s), s.rho0
+    m = s.Density * s.Speed / cs / r0
+    if kind == 'ie':
+        mom = (s.Density * s.Speed ** 2 + s.Pressure) / cs ** 2 / r0
+        return m, mom, None
+    T = s.Tm if kind == 'ED' else s.Tr
+    Pr = s.P0 * (T / s.Tref) ** 4 * (s.VEF if kind == 'Sn' else 1. / 3.)
+    mom = (s.Density * s.Speed ** 2 + s.Pressure) / cs ** 2 / r0 + Pr
+    en = (0.5 * s.Density * s.Speed ** 2 + s.Density * s.SIE + s.Pressure) / cs ** 2 / r0 * s.Speed / cs + s.Fr / cs ** 2 / r0
+    return m, mom, en
+
+
+def _rs_flux_check(c):
+    """mass flux, total momentum flux and total energy flux are constant along the whole stored profile (solver attributes;
+    `Fr` = radiation energy flux / sound speed, including the advected enthalpy -- the convention of the suite's flux tests)"""
+    s = _rs_solver(c['kind'], c['params'])
+    if s is None:
+        return None
+    kind = c['kind']
+    m, mom, en = _rs_fluxes(s, kind)
+    tol = 1e-7 if kind == 'Sn' else 1e-9          # calibrated: 3e-16 … 2e-15 (ED, nED, ie), 2.3e-9 (Sn momentum)
+    e = float(np.max(np.abs(m / s.M0 - 1)))
+    if not e <= tol:
+        return dict(site='RadShock:%s:mass-flux' % kind, detail='relative variation %.3e' % e)
+    e = float(np.max(np.abs(mom / mom[0] - 1)))
+    if not e <= tol:
+        return dict(site='RadShock:%s:momentum-flux' % kind, detail='relative variation %.3e' % e)
+    if en is not None:
+        # the last node of an ED profile with an embedded hydrodynamic shock is a separate obligation (rs_ed_last_node)
+        body = en[:-1] if kind == 'ED' else en
+        e = float(np.max(np.abs(body / en[0] - 1)))
+        if not e <= tol:
+            return dict(site='RadShock:%s:energy-flux' % kind, detail='relative variation %.3e' % e)
+    return None
+
+
+rs_flux = _tiered(['ED', 'nED', 'ie'], ['ED', 'nED', 'ie', 'Sn'], _rs_flux_check, 'c12.radshock.flux')
+
+
+def _rs_last_node_check(c):
+    """the total energy flux formed with `Fr` at the LAST node (far-downstream equilibrium state) of the ED profile"""
+    s = _rs_solver('ED', c['params'])
+    if s is None:
+        return None
+    m, mom, en = _rs_fluxes(s, 'ED')
+    e = abs(float(en[-1] / en[0]) - 1)
+    if not e <= 1e-9:
+        return dict(site='RadShock:ED:energy-flux-last-node',
+                    detail='total energy flux at the last node differs from upstream by %.3e (relative); M0=%r gamma=%r' % (e, s.M0, s.gamma))
+    return None
+
+
+def _rs_last_gen(rng):
+    p = dict(rng.choice([dict(gamma=1.4), dict(M0=2.0), dict(), dict(Cv=2.0e12, Tref=150.)]))
+    return dict(kind='ED', params=p)
+
+
+rs_ed_last_node = O.make(_rs_last_gen, _rs_last_node_check, 'c12.radshock.ed_last_node')
+
+
+def _rs_farfield_check(c):
+    """far upstream: (rho, T, u) = (rho0, Tref, M0 c_s); far downstream: the equilibrium state related to it by the
+    (radiation-modified, resp. hydrodynamic) jump conditions"""
+    s = _rs_solver(c['kind'], c['params'])
+    if s is None:
+        return None
+    kind, cs, g, M0 = c['kind'], _rs_c(s), s.gamma, s.M0
+    up = (s.Density[0] / s.rho0, s.Tm[0] / s.Tref, s.Speed[0] / cs / M0)
+    if max(abs(v - 1) for v in up) > 1e-6:       # the profile starts eps_precursor_equil ~ 1e-6 away from equilibrium
+        return dict(site='RadShock:%s:far-upstream' % kind, detail='(rho/rho0, T/Tref, u/(M0 c_s)) = %r' % (up,))
+    r1, T1 = float(s.Density[-1] / s.rho0), float(s.Tm[-1] / s.Tref)
+    if kind == 'ie':
+        mom = M0 * M0 / r1 + r1 * T1 / g - (M0 * M0 + 1 / g)
+        ene = M0 * M0 / (2 * r1 * r1) + T1 / (g - 1) - (M0 * M0 / 2 + 1 / (g - 1))
+    else:
+        P0 = float(s.P0)
+        mom = M0 * M0 / r1 + r1 * T1 / g + P0 * T1 ** 4 / 3 - (M0 * M0 + 1 / g + P0 / 3)
+        ene = M0 * M0 / (2 * r1 * r1) + T1 / (g - 1) + 4 * P0 * T1 ** 4 / (3 * r1) - (M0 * M0 / 2 + 1 / (g - 1) + 4 * P0 / 3)
+    if abs(mom) > 1e-7 or abs(ene) > 1e-7:
+        return dict(site='RadShock:%s:far-downstream-jump' % kind,
+                    detail='(rho1, T1) = (%r, %r): momentum defect %.3e, energy defect %.3e' % (r1, T1, mom, ene))
+    return None
+
+
+rs_farfield = _tiered(['ED', 'nED', 'ie'], ['ED', 'nED', 'ie', 'Sn'], _rs_farfield_check, 'c12.radshock.farfield')
+
+
+def _rs_eos_check(c):
+    """C03 share: SIE = Pressure / Density / (gamma - 1), Sound_Speed = Speed / Mach, sound = sqrt(gamma (gamma-1) Cv Tref)"""
+    s = _rs_solver(c['kind'], c['params'])
+    if s is None:
+        return None
+    e = float(np.max(np.abs(s.SIE * s.Density * (s.gamma - 1) / s.Pressure - 1)))
+    if not e <= 1e-12:
+        return dict(site='RadShock:%s:sie' % c['kind'], detail='relative error %.3e' % e)
+    e = float(np.max(np.abs(s.Sound_Speed * s.Mach / s.Speed - 1)))
+    if not e <= 1e-12:
+        return dict(site='RadShock:%s:sound-speed' % c['kind'], detail='relative error %.3e' % e)
+    if O.relerr(float(s.sound), _rs_c(s)) > 1e-14:
+        return dict(site='RadShock:%s:sound' % c['kind'], detail='solver.sound = %r, sqrt(gamma (gamma-1) Cv Tref) = %r' % (s.sound, _rs_c(s)))
+    return None
+
+
+rs_eos = _tiered(['ED', 'nED', 'ie'], ['ED', 'nED', 'ie', 'Sn'], _rs_eos_check, 'c03.radshock.eos')
+
+
+def rs_jump_tie(rng, deep):
+    """RadJump / RadIEJump twins against the real `downstream_equilibrium` (the residual closure is captured from the
+    real fsolve call)"""
+    U = importlib.import_module('exactpack.solvers.radshocks.utils')
+    import scipy.optimize
+    cases, want = [], {}
+    for i in range(200 if deep else 40):
+        M0, g, P0 = rng.uniform(1.05, 4.0), rng.uniform(1.1, 2.0), 10 ** rng.uniform(-5, 0)
+        rho, T = rng.uniform(0.5, 5.0), rng.uniform(0.5, 5.0)
+        prof = object.__new__(U.RadShockProfile)
+        prof.M0, prof.gamma, prof.P0 = M0, g, P0
+        cap = {}
+        real_fsolve = scipy.optimize.fsolve
+
+        def fsolve(f, x0, *a, **k):
+            if f.__name__ == 'momentum_and_energy':
+                cap['f'] = f
+            return real_fsolve(f, x0, *a, **k)
+        saved = U.scipy.optimize.fsolve
+        U.scipy.optimize.fsolve = fsolve
+        try:
+            with warnings.catch_warnings():
+                warnings.simplefilter('ignore')
+                prof.downstream_equilibrium()
+        except Exception:
+            continue
+        finally:
+            U.scipy.optimize.fsolve = saved
+        c = dict(M0=M0, gamma=g, P0=P0, rho=rho, T=T, rho1=float(prof.rho1), T1=float(prof.T1))
+        mom, ene = cap['f']([rho, T])
+        cases.append(c)
+        want[json.dumps(c, sort_keys=True)] = [mom, ene, prof.M1, prof.speed1, prof.Pr1, prof.Er1, prof.rho1, prof.T1]
+    st = twin_tie('RadJump', cases, lambda c: want[json.dumps(c, sort_keys=True)], rtol=1e-10)
+    cases2 = [dict(M0=rng.uniform(1.01, 4.0), gamma=rng.uniform(1.1, 2.0), rho0=rng.choice([1.0, rng.uniform(0.5, 2.0)]))
+              for i in range(200 if deep else 40)]
+
+    def real2(c):
+        prof = object.__new__(U.IEShockProfile)
+        prof.M0, prof.gamma, prof.rho0 = c['M0'], c['gamma'], c['rho0']
+        prof.downstream_equilibrium()
+        return [prof.M1, prof.speed1, prof.rho1, prof.T1]
+    st2 = twin_tie('RadIEJump', cases2, real2, rtol=1e-9)
+    for k in ('evaluations', 'distinct_nontrivial'):
+        st[k] += st2[k]
+    st['mismatches'] += st2['mismatches']
+    return st
+
+
+def rs_ed_tie(rng, deep):
+    """RadED twin against the arrays of a REAL equilibrium-diffusion profile at its own nodes, and RadAttrED against the
+    attributes the real solver derives from it"""
+    from py2lean.targets.t_rad import ED_FIELDS, ED_PARAMS, RAD_ATTRS
+    F = importlib.import_module('exactpack.solvers.radshocks.fnctn_ED')
+    tot = dict(evaluations=0, distinct_nontrivial=0, mismatches=[], samples=[])
+    for params in (RS_PARAM_SETS if deep else RS_PARAM_SETS[:2]):
+        s = _rs_solver('ED', params)
+        if s is None:
+            continue
+        prob = s._ED_Solver__prob
+        prof = prob.ED_profile
+        n = len(prof.Tm)
+        cases, want = [], {}
+        for i in [rng.randrange(1, n - 1) for _ in range(40 if deep else 15)]:
+            c = {k: float(getattr(prof, k)) for k in ED_PARAMS}
+            c.update(T=float(prof.Tm[i]), T1=float(prof.T1), rho1=float(prof.rho1), M1=float(prof.M1))
+            w = []
+            for j in (0, i, n - 1):
+                w += [float(getattr(prof, k)[j]) for k in ED_FIELDS]
+            w += [float(F.dxdT(0., c['T'], prof)), float(F.sigma_t(c['T'], prof)), float(F.rho(c['T'], prof))]
+            cases.append(c)
+            want[json.dumps(c, sort_keys=True)] = w
+        st = twin_tie('RadED', cases, lambda c: want[json.dumps(c, sort_keys=True)], rtol=1e-9)
+        cases, want = [], {}
+        for i in [rng.randrange(0, n) for _ in range(20)]:
+            c = dict(Cv=float(s.Cv), Tref=float(s.Tref), gamma=float(s.gamma), rho0=float(s.rho0))
+            for k in ('Density', 'Fr', 'Mach', 'Pressure', 'Speed', 'Tm'):
+                c['prof_%s0' % k] = float(getattr(prof, k)[i])
+            w = []
+            for k in RAD_ATTRS['RadWrapED']:
+                v = getattr(s, k)
+                w.append(float(v[i]) if isinstance(v, np.ndarray) else float(v))
+            cases.append(c)
+            want[json.dumps(c, sort_keys=True)] = w
+        st2 = twin_tie('RadAttrED', cases, lambda c: want[json.dumps(c, sort_keys=True)], rtol=1e-11)
+        for x in (st, st2):
+            tot['evaluations'] += x['evaluations']
+            tot['distinct_nontrivial'] += x['distinct_nontrivial']
+            tot['mismatches'] += x['mismatches']
+            tot['samples'] += x['samples'][:1]
     return tot
